@@ -306,8 +306,8 @@ def i_subdomain(s, draw):
 
 def i_amp_host_prefix(s, draw):
     first = s["host"].split(".")[0].lower()
-    if first.startswith("amp-") or not first.isascii() or first.startswith("xn--") or _L.is_irrelevant_label(first):
-        return None  # 'amp-' is glued onto the site's own first label, never onto www / m / an IDN label
+    if first.startswith("amp-") or not first.isascii() or _L.is_irrelevant_label(first) or (first.startswith("xn--") and first not in _PUNY):
+        return None  # 'amp-' is glued onto the site's own first label (plain ASCII or a well-formed A-label), never onto www / m / a raw IDN label
     s = copy.deepcopy(s)
     s["host"] = draw(st.sampled_from(["amp-", "AMP-"])) + s["host"]
     return s
@@ -336,7 +336,8 @@ def i_index_page(s, draw):
     if s["segments"] and (_L.is_index_segment(s["segments"][-1].lower()) or s["segments"][-1].lower().startswith("amp")):
         return None
     s = copy.deepcopy(s)
-    s["segments"] = s["segments"] + [draw(st.sampled_from(["index.html", "index.php", "index", "default.asp", "default.aspx", "index.htm", "default"]))]
+    s["segments"] = s["segments"] + [draw(st.sampled_from(["index.html", "index.php", "index", "default.asp", "default.aspx", "index.htm", "default",
+                                                            "index.HTML", "default.ASPX", "index.Php", "index.", "index.x-y", "default.é"]))]
     s["trailing_slash"] = False
     return s
 
